@@ -8,6 +8,7 @@ import ucicorr as U
 import positions as P
 import uciproc
 from props import searchprop as SP
+from props import boardprop
 
 START = "rnbqkbnr/pppppppp/8/8/8/8/PPPPPPPP/RNBQKBNR w KQkq - 0 1"
 
@@ -106,22 +107,21 @@ def run(ctx):
         violations.append({"replay": rp, "no_input": True})
     else:
         nbad = 0
+        nint = 0
         for lines, es, mv in zip(sessions, eng_states, vals):
             mv = B.norm(mv)
             end, mstate, nready = mv[0], mv[1], mv[2]
             if es is None:
                 problem = "engine did not answer verifdump (crashed?)"
             else:
-                problem = None
-                names = (["turn", "fullmove", "ep"] + ["bb%d" % i for i in range(15)] + ["zkey", "scratch_key"])
-                for nm, a, b in zip(names, es[0], mstate[0]):
-                    if a != b:
-                        problem = "session position differs in %s: engine %s, model %s" % (nm, a, b)
-                        break
-                if problem is None and es[1] != mstate[1]:
-                    problem = "undo stack differs"
-                if problem is None and sorted(es[2]) != sorted(mstate[2]):
-                    problem = "record of earlier positions differs"
+                problem, internal_only = boardprop.state_diff(es, mstate)
+                if problem is None and internal_only:
+                    nint += 1
+                    if nint <= 2:
+                        rp = C.write_replay(prop, {"kind": "position command", "session": lines, "problem": internal_only,
+                                                   "broken": "correspondence engine session state = model of the command loop on an observable the rules do not fix "
+                                                             "(the position itself — placement, side, rights, en-passant file, counters, earlier positions — agrees)"})
+                        violations.append({"replay": rp, "no_input": True})
             if problem:
                 nbad += 1
                 if nbad <= 3:
